@@ -256,6 +256,8 @@ def main(argv=None):
                 baseline[r['oid']] = dict(status=r['status'], leaves=r['nleaves'], clause_sha=clause_sha(r['module']),
                                           prop=sorted(set(baseline.get(r['oid'], {}).get('prop', [])) | {prop}))
         json.dump(baseline, open(os.path.join(ROOT, 'baseline', 'obligations.json'), 'w'), indent=0, sort_keys=True)
+    slow = sorted(res, key=lambda r: -r.get('wall', 0))[:5]
+    print('slowest jobs: ' + ', '.join('%s %.0fs' % (r['oid'], r.get('wall', 0)) for r in slow))
     print('%s tier=%s obligations=%d discharged=%d leaves=%d jobs=%d known-findings=%d undecided=%d wall=%.1fs'
           % (prop, tier, n_obl, n_dis, n_leaves, len(res), len(kf_lines), len(undecided), wall))
     if faults:
